@@ -36,12 +36,19 @@ def _b64(b):
     return base64.b64encode(b).decode()
 
 
-def stored_value(shape):
-    good = _b64(bytes(b ^ KEYS["K1"][i % 32] for i, b in enumerate(b"hello")))
+def stored_value(shape, fm="best"):
+    """A stored secret of the named (mal)formation for a field whose method is fm.  `good` is a
+    genuine ciphertext of "hello" under the field's own method and key (K1), so that the only
+    thing wrong with a shape is what its name says."""
+    if fm == "xor":
+        good = _b64(bytes(b ^ KEYS["K1"][i % 32] for i, b in enumerate(b"hello")))
+    else:
+        good = _b64(aesref.cbc_encrypt(KEYS["K1"], bytes(range(16)), b"hello"))
     return {
         "none": None,
         "plain-str": "plain text",
         "dict-no-method": {"ciphertext": good},
+        "dict-null-method": {"method": None, "ciphertext": good},
         "dict-empty-method": {"method": "", "ciphertext": good},
         "dict-unknown-method": {"method": "rot13", "ciphertext": good},
         "dict-int-method": {"method": 5, "ciphertext": good},
@@ -80,9 +87,11 @@ class World:
         self.cfg = None
         self.alg = None
         schema = cinco.Schema()
-        schema.sec = cinco.SecureField()
+        schema.best = cinco.SecureField()
+        schema.xor = cinco.SecureField(method="xor")
+        schema.aes = cinco.SecureField(method="aes")
         self.scfg = cinco.Config(schema, key_filename=os.path.join(self.root, "K1"))
-        self.sfield = schema.sec
+        self.sfields = {"best": schema.best, "xor": schema.xor, "aes": schema.aes}
 
     def close(self):
         os.urandom = self.real_urandom
@@ -174,8 +183,22 @@ class World:
                     ctx.decrypt(sv)
                 return {"out": "ok"}
             if op == "LoadStored":
-                self.sfield.to_python(self.scfg, stored_value(ev["shape"]))
+                fm = ev.get("fm", "best")
+                self.sfields[fm].to_python(self.scfg, stored_value(ev["shape"], fm))
                 return {"out": "ok"}
+            if op == "EncryptPair":
+                pt = bytes(codec.seq(ev["pt"]))
+                kf = self.kf[ev["key"]]
+                with kf as ctx:
+                    sv1 = ctx.encrypt(pt, method=ev["m"])
+                    if ev["nested"]:
+                        with kf as inner:
+                            sv2 = inner.encrypt(pt, method=ev["m"])
+                    else:
+                        sv2 = ctx.encrypt(pt, method=ev["m"])
+                self.store.append((sv1, ev["key"], pt))
+                self.store.append((sv2, ev["key"], pt))
+                return {"out": "ok", "sv": self.abstract_sv(sv1, pt), "sv2": self.abstract_sv(sv2, pt)}
             if op == "Assign":
                 self.ensure_cfg(ev["alg"])
                 secret = SECRETS[ev["p"]]
@@ -258,7 +281,7 @@ def driver(cinco, prop, seed, n_traces, length):
 
     rng = random.Random(seed)
     traces = []
-    shapes = ["none", "plain-str", "dict-no-method", "dict-empty-method", "dict-unknown-method", "dict-int-method", "dict-no-ciphertext",
+    shapes = ["none", "plain-str", "dict-no-method", "dict-null-method", "dict-empty-method", "dict-unknown-method", "dict-int-method", "dict-no-ciphertext",
               "dict-int-ciphertext", "dict-bad-padding-b64", "dict-foreign-chars-b64", "dict-aes-short", "dict-aes-unaligned", "dict-aes-wrong-key", "list", "int"]
     for t in range(n_traces):
         w = World(cinco)
@@ -269,7 +292,11 @@ def driver(cinco, prop, seed, n_traces, length):
             for _ in range(length):
                 r = rng.random()
                 if prop == "C08":
-                    if r < 0.4 or not w.store:
+                    if r < 0.08:
+                        n = rng.choice([0, 1, 16, 33, rng.randint(0, 60)])
+                        ev = {"op": "EncryptPair", "key": rng.choice(["K1", "K2"]), "m": rng.choice(["aes", "xor", "best"]), "pt": [rng.randint(0, 255) for _ in range(n)],
+                              "nested": rng.random() < 0.5}
+                    elif r < 0.4 or not w.store:
                         n = rng.choice([0, 1, 15, 16, 17, 31, 32, 33, 64, rng.randint(0, 120)])
                         ev = {"op": "Encrypt", "key": rng.choice(["K1", "K2"]), "m": rng.choice(["aes", "xor", "best"]), "pt": [rng.randint(0, 255) for _ in range(n)]}
                     elif r < 0.7:
@@ -286,7 +313,7 @@ def driver(cinco, prop, seed, n_traces, length):
                             continue
                         ev = {"op": "DecryptTruncated", "i": rng.choice(cands)}
                     else:
-                        ev = {"op": "LoadStored", "shape": rng.choice(shapes)}
+                        ev = {"op": "LoadStored", "shape": rng.choice(shapes), "fm": rng.choice(["best", "xor", "aes"])}
                 else:
                     if r < 0.35 or w.cfg is None:
                         name = "r%d_%d" % (t, len(mine))
@@ -324,7 +351,7 @@ def driver(cinco, prop, seed, n_traces, length):
 C08_INV = ["C08_ConcreteMethod", "C08_Inverse", "C08_FreshIV", "C08_WrongKey", "C08_XorInvolution", "C08_MalformedRejected"]
 C09_INV = ["C09_Exact", "C09_SaltLen", "C09_HandWrittenHashed"]
 C09_PROP = ["C09_FreshSalt", "C09_Survives"]
-C08_OPS = ("Encrypt", "Decrypt", "DecryptBad", "DecryptTruncated", "LoadStored")
+C08_OPS = ("Encrypt", "EncryptPair", "Decrypt", "DecryptBad", "DecryptTruncated", "LoadStored")
 C09_OPS = ("Assign", "LoadPlain", "Challenge", "SaveLoad")
 
 
